@@ -25,6 +25,36 @@ Theorem C07_replay_then_live :
 Proof. exact replay_then_live. Qed.
 Print Assumptions C07_replay_then_live.
 
+(* any retention size. k0 is the number of entries retention had dropped from the front of the stored history when the
+   subscriber's scan read it (at most what has been dropped by now): the replay covers the retained entries that follow
+   the requested id up to the cut-off ("earliest": all retained entries up to the cut-off; an id that was already
+   dropped is unknown). With retention off k0 = 0 and this is the statement above. *)
+Theorem C07_replay_then_live_with_retention :
+  forall (mt : nat -> N -> bool) (cap : nat) (tracking persistent : bool) size reqs pubs sched i s,
+  let st := w_st (wrun mt cap tracking (winit persistent size reqs pubs) sched) in
+  nth_error (h_subs st) i = Some s ->
+  exists k0, (k0 <= dropped st)%nat /\
+  let target := ideal_k mt i (h_committed st) k0 (hs_cut s) (eff_req persistent (hs_req s)) in
+  (N.to_nat (hs_cut s) <= length (h_committed st))%nat /\
+  prefix (hs_sent s) target /\ prefix (hs_recvd s) target /\ hs_sent s = hs_recvd s ++ hs_out s /\
+  (forall left, hs_phase s = PLive left -> hs_disc s = false -> hs_sent s = target).
+Proof. exact replay_then_live_retention. Qed.
+Print Assumptions C07_replay_then_live_with_retention.
+
+(* ... and that target is again the matching part of the commit order from one point k on: the first retained entry for
+   "earliest", just after the requested id when it is among the retained entries up to the cut-off, the registration
+   point otherwise *)
+Theorem C07_ideal_with_retention :
+  forall (mt : nat -> N -> bool) i C k0 cut rq,
+  (N.to_nat cut <= length C)%nat ->
+  exists k, ideal_k mt i C k0 cut rq = filter (mt i) (skipn k C) /\ (k <= N.to_nat cut)%nat /\
+    ((k0 <= N.to_nat cut)%nat -> (k0 <= k)%nat) /\
+    (rq = Earliest -> (k0 <= N.to_nat cut)%nat -> k = k0) /\ (rq = NoReq -> k = N.to_nat cut) /\
+    (forall r, rq = ReqId r ->
+       (In r (hseg C k0 cut) -> skipn k C = after r (skipn k0 C)) /\ (~ In r (hseg C k0 cut) -> k = N.to_nat cut)).
+Proof. intros mt. exact (ideal_k_is_suffix mt 0%nat). Qed.
+Print Assumptions C07_ideal_with_retention.
+
 (* eff_req true rq = rq (Bolt: the request is honoured); eff_req false rq = NoReq (local transport: no history) *)
 Theorem C07_effective_request : forall rq, eff_req true rq = rq /\ eff_req false rq = NoReq.
 Proof. intros rq. split; reflexivity. Qed.
@@ -52,6 +82,17 @@ Theorem C07_scan_stops_at_cutoff :
   scan_rest mt i cut rq (entries_from 1 C) (match rq with Earliest => true | _ => false end) = hist_part mt i C cut rq.
 Proof. exact scan_whole. Qed.
 Print Assumptions C07_scan_stops_at_cutoff.
+
+Example C07_nonvacuous_retention :
+  (* retention size 2, cleanup on every publish: 1..4 published (1 and 2 dropped), then a subscriber asking for everything
+     and one asking for what follows the dropped id 1: the first gets 3 4, the second nothing from history; 5 goes to both *)
+  let mt := fun (i : nat) (u : N) => true in
+  let w := wrun mt 5 false (winit true 2 [Earliest; ReqId 1] [[1; 2; 3; 4; 5]])
+   ([APubCheck 0; APublish 0 true; APubCheck 0; APublish 0 true; APubCheck 0; APublish 0 true; APubCheck 0; APublish 0 true] ++
+    repeat (ASub 0 true) 9 ++ repeat (ASub 1 true) 9 ++ [APubCheck 0; APublish 0 true]) in
+  h_committed (w_st w) = [1; 2; 3; 4; 5] /\ map snd (h_db (w_st w)) = [4; 5] /\ dropped (w_st w) = 3%nat /\
+  map (fun s => (hs_sent s, hs_cut s, hs_disc s)) (h_subs (w_st w)) = [([3; 4; 5], 4, false); ([5], 4, false)].
+Proof. vm_compute. repeat split; reflexivity. Qed.
 
 Example C07_nonvacuous :
   (* 6 and 7 published, crash and restart, 50 (matching nobody) published, subscriber 1 asks for what follows 7 and 8 is
